@@ -767,7 +767,10 @@ func restoreCollection(co *CollectionOptions, storeFooter *Footer) (
 func removeFiles(dir string, fnames []string) error {
 	for _, fname := range fnames {
 		err := os.Remove(path.Join(dir, fname))
-		if err != nil {
+		if err != nil && !os.IsNotExist(err) {
+			// A file that is gone already is fine: e.g. the previous
+			// Store of this directory removes superseded files
+			// asynchronously after its Close().
 			return err
 		}
 	}
